@@ -2927,6 +2927,10 @@ class TLSConnection(TLSRecordLayer):
                     external = False
                     if not match:
                         continue
+                    # don't resume from tickets that have expired
+                    if ticket.creation_time + settings.ticketLifetime < \
+                            time.time():
+                        continue
                     match = [match]
 
                 # check if the ticket version matches
